@@ -21,6 +21,8 @@ import (
 	perpetualtypes "github.com/elys-network/elys/x/perpetual/types"
 	stablestaketypes "github.com/elys-network/elys/x/stablestake/types"
 	tstypes "github.com/elys-network/elys/x/tradeshield/types"
+	estakingtypes "github.com/elys-network/elys/x/estaking/types"
+	tiertypes "github.com/elys-network/elys/x/tier/types"
 )
 
 // Step is one abstract action of a schedule (produced by the TLC models or by the
@@ -916,6 +918,62 @@ func (d *Driver) Apply(s Step) bool {
 		ev := newEvent(name, user)
 		ev.Args["denom"], ev.Args["amt"] = den, amt.String()
 		d.queue(user, ev, msg)
+		return true
+
+	case "stake", "unstake": // commitment's staking front end: uelys is delegated to / undelegated from the validator, Eden / EdenB are (un)committed
+		den := s.S("d")
+		if den == "" {
+			den = "uelys"
+		}
+		vals, err := a.StakingKeeper.GetAllValidators(ctx)
+		if err != nil || len(vals) == 0 {
+			return false
+		}
+		val := vals[0].GetOperator()
+		var base math.Int
+		valAddr, _ := sdk.ValAddressFromBech32(val)
+		switch {
+		case s.S("a") == "stake" && den == "uelys":
+			base = a.BankKeeper.GetBalance(ctx, c.Addr[user], den).Amount
+		case s.S("a") == "stake":
+			cm := a.CommitmentKeeper.GetCommitments(ctx, c.Addr[user])
+			base = cm.GetClaimedForDenom(den)
+		case den == "uelys":
+			base = math.ZeroInt()
+			if del, err := a.StakingKeeper.GetDelegation(ctx, c.Addr[user], valAddr); err == nil {
+				base = vals[0].TokensFromShares(del.Shares).TruncateInt()
+			}
+		default:
+			cm := a.CommitmentKeeper.GetCommitments(ctx, c.Addr[user])
+			base = cm.GetCommittedAmountForDenom(den)
+		}
+		amt := frac(s.S("frac"), base, c.Rand.Intn)
+		if s.Has("amt") {
+			amt, _ = math.NewIntFromString(s.S("amt"))
+		}
+		if s.S("a") == "stake" {
+			ev := newEvent("commitment.MsgStake", user)
+			ev.Args["denom"], ev.Args["amt"] = den, amt.String()
+			d.queue(user, ev, &committypes.MsgStake{Creator: d.addr(user), Amount: amt, Asset: den, ValidatorAddress: val})
+		} else {
+			ev := newEvent("commitment.MsgUnstake", user)
+			ev.Args["denom"], ev.Args["amt"] = den, amt.String()
+			d.queue(user, ev, &committypes.MsgUnstake{Creator: d.addr(user), Amount: amt, Asset: den, ValidatorAddress: val})
+		}
+		return true
+
+	case "withdrawStaking": // estaking: the delegator's rewards from every (real and virtual) validator, or the Elys staking part only
+		if s.S("kind") == "elys" {
+			d.queue(user, newEvent("estaking.MsgWithdrawElysStakingRewards", user), &estakingtypes.MsgWithdrawElysStakingRewards{DelegatorAddress: d.addr(user)})
+		} else {
+			d.queue(user, newEvent("estaking.MsgWithdrawAllRewards", user), &estakingtypes.MsgWithdrawAllRewards{DelegatorAddress: d.addr(user)})
+		}
+		return true
+
+	case "setPortfolio": // tier: anybody may ask for a user's portfolio to be recomputed and stored
+		ev := newEvent("tier.MsgSetPortfolio", user)
+		ev.Args["user"] = s.S("of")
+		d.queue(user, ev, &tiertypes.MsgSetPortfolio{Creator: d.addr(user), User: d.addr(s.S("of"))})
 		return true
 
 	case "claimVesting":
